@@ -53,6 +53,9 @@ static void threads_gen(Rng &r, Plan &p, Tier tier, uint64_t index)
 			s.set("damage", r.chance(1, 3) ? 1 : 0);
 			s.set("cb", r.chance(1, 3) ? 1 : 0);
 			s.set("claims", r.chance(1, 3) ? 1 : 0);
+			// the checker is handed the private form of the shared key (a JWK may sign and verify): the provider
+			// derives the public half itself
+			s.set("vpriv", r.chance(1, 3) ? 1 : 0);
 		} else {
 			s = Step("GEN");
 			produced.push_back((int64_t)uid);
@@ -256,11 +259,12 @@ static void do_op(RunCtx &rc, size_t idx)
 			return;
 		}
 		std::string kid = strf("k%d", vkey);
-		KidCtx kc{K.ring_pub, kid.c_str(), K.alg[vkey]};
+		bool vpriv = s.I("vpriv") != 0;
+		KidCtx kc{vpriv ? K.ring_priv : K.ring_pub, kid.c_str(), K.alg[vkey]};
 		if (s.I("bykid"))
 			jwt_checker_setcb(c, kid_cb, &kc);
 		else
-			jwt_checker_setkey(c, (jwt_alg_t)K.alg[vkey], K.pub[vkey].item);
+			jwt_checker_setkey(c, (jwt_alg_t)K.alg[vkey], vpriv ? K.priv[vkey].item : K.pub[vkey].item);
 		if (s.I("claims"))
 			jwt_checker_claim_set(c, JWT_CLAIM_SUB, "alpha");
 		if (s.I("cb") && !s.I("bykid"))
